@@ -445,8 +445,9 @@ def judge(block, res, n_paths, eff, twin=None, stats=None):
             vd, wd = vol.double(), var.double()
             ok_rows = torch.isfinite(vd) & torch.isfinite(wd)
             root = wd.clamp(min=0).sqrt()
-            # relative 2 eps (derivation: series_contract.sqrt_tolerance) + the spacing of the dtype's
-            # subnormals around the value (variance below the normal range loses relative accuracy)
+            # relative 2 eps (derivation: series_contract.sqrt_tolerance); absolute floor for variances in the
+            # subnormal range, where one operand carries an absolute error of one subnormal ulp
+            # u = tiny*eps: |sqrt(a) - sqrt(b)| <= sqrt(|a - b|) <= sqrt(u) (factor 2 for the final roundings)
             tol = SC.sqrt_tolerance(eff) * root + (finfo.tiny * finfo.eps) ** 0.5 * 2
             bad = ok_rows & (((vd - root).abs() > tol) | (vd < 0))
             if bad.any():
@@ -536,10 +537,8 @@ def _dn(d):
 def _init_class(block, init, eff):
     """Classifier of a column-0 failure from the failing input."""
     form = block["init"]["form"]
-    if isinstance(init, torch.Tensor):
-        val = float(init)
-    else:
-        val = float(init)
+    val = float(init)
+    # "dyadic" = exactly representable with 8 significant bits (so in every float dtype used here)
     dyadic = float(torch.tensor(val, dtype=torch.float64).to(torch.bfloat16)) == val
     default = DT[block["default"]]
     wider = torch.finfo(eff).bits > torch.finfo(default).bits
@@ -597,7 +596,7 @@ def evaluate(block):
         problems = judge(block, res, N, eff, twin, stats)
         info["stats"] = stats
         # real RNG pass: same call, unpatched torch
-        torch.manual_seed(1234 + block.get("seed", 0))
+        torch.default_generator.manual_seed(1234 + block.get("seed", 0))   # cpu generator only
         try:
             real = call_real(block, N if N <= 4096 else 7, req, None)
             n_real = N if N <= 4096 else 7
